@@ -18,6 +18,7 @@ def handle (st : DState) (j : Json) : DState × Json :=
   | .str "mf" => (st, multiformOp j)
   | .str "export" => (st, exportOp j)
   | .str "hist" => (st, histOp j)
+  | .str "noise" => (st, noiseOp j)
   | .str "grouping" => (st, groupingOp j)
   | .str "exp_pauliword" => (st, expPauliwordOp j)
   | .str "exp_qubitop" => (st, expQubitOp j)
